@@ -149,7 +149,11 @@ def gen_cfa(rng, ptr):
     vals = []
     for k in R.cfa_operand_kinds(name):
         if k == "expr":
-            vals.append([gen_op(rng, ptr) for _ in range(rng.randrange(0, 5))])
+            # mostly short; sometimes long enough for the block length to
+            # need a 2- or 3-byte ULEB128
+            n = rng.choices([rng.randrange(0, 5), rng.randrange(40, 90),
+                             rng.randrange(2500, 3500)], [90, 9, 1])[0]
+            vals.append([gen_op(rng, ptr) for _ in range(n)])
         else:
             lo, hi = R.kind_range(k, ptr)
             vals.append(boundary_values(rng, lo, hi))
